@@ -37,7 +37,7 @@ ASSUMPTIONS = [
     "plain-data (pod) reads are judged by byte closure: writing the pod value back must give the original bytes",
     "any exception counts as rejection of an out-of-limit value",
 ]
-MUST_REACH = {"values_looked_at_after_the_reader_moved_on": 2000, "unknown_values_under_catch_all_enum": 30, "recursive_spec_values_with_children": 100, "size_queries_repeated": 5000, "programs": 300, "roundtrips": 2000, "classes_covered": 45, "ood_probes_rejected": 50,
+MUST_REACH = {"tuples_with_members_chosen_by_their_first_member": 100, "values_looked_at_after_the_reader_moved_on": 2000, "unknown_values_under_catch_all_enum": 30, "recursive_spec_values_with_children": 100, "size_queries_repeated": 5000, "programs": 300, "roundtrips": 2000, "classes_covered": 45, "ood_probes_rejected": 50,
               "greedy_programs": 30, "trailing_bytes_checks": 500, "fixed_size_checks": 300, "pod_closures": 1000}
 
 
